@@ -112,8 +112,9 @@ theorem ids_distinct_full_cex : ¬ ids_distinct_full := by
   have e : ids (run (init .lenPlus1) dupWitness).table = [2, 3, 3] := by decide
   simp [IdsDistinct, e] at h'
 
-/-- guard of the partial theorem: no `check_for_completed_jobs` in the history (script given with
-`-c` or as a file: finished jobs leave the table only through `wait`) -/
+/-- guard of the partial theorem: nothing in the history removes finished jobs one by one — no
+`check_for_completed_jobs` (script given with `-c` or as a file) and no `wait %spec` (which sweeps the
+job it waited for): finished jobs leave the table only through plain `wait`, which empties it -/
 def NoPoll (ops : List Op) : Prop := ∀ op ∈ ops, isPoll op = false
 
 instance (ops : List Op) : Decidable (NoPoll ops) := by unfold NoPoll; infer_instance
@@ -125,17 +126,12 @@ private theorem lenInv_step {s s' : St} (h : StepRel s false s') (hi : LenInv s)
   cases h with
   | same => exact ⟨hr, hi⟩
   | blocked => exact ⟨hr, hi⟩
-  | launch n st _ =>
+  | launch n st _ _ =>
     refine ⟨hr, ?_⟩
     simp only [ids_add, add_length, hr, nextId, hi, List.range'_concat]
     simp; omega
   | completes fin' _ => exact ⟨hr, hi⟩
   | waitAll fin' _ _ => exact ⟨hr, rfl⟩
-  | waitSpec i j fin' hj _ _ =>
-    refine ⟨hr, ?_⟩
-    have := map_set_cleared (·.id) (fun _ => rfl) hj
-    simp only [ids] at hi ⊢
-    simp only [this, hi, List.length_set]
 
 /-- **distinct job numbers, partial**: on every history without a between-commands poll the live
 jobs are numbered `1 … n` in table order — in particular pairwise distinct. -/
@@ -149,8 +145,8 @@ theorem ids_distinct_partial (ops : List Op) (h : NoPoll ops) :
   simp only [IdsDistinct, hinv.2]
   exact List.nodup_range' 1
 
-example : NoPoll [.launch 1 false, .launch 2 true, .finish 2, .waitSpec (.num 1) [1], .launch 1 false,
-    .waitAll [4, 3, 2]] := by decide
+example : NoPoll [.launch 1 false, .launch 2 true, .finish 2, .query, .launch 1 false,
+    .waitAll [4, 3, 2, 1]] := by decide
 
 private def MaxInv (s : St) : Prop := s.rule = .maxPlus1 ∧ (ids s.table).Nodup
 
@@ -159,7 +155,7 @@ private theorem maxInv_step {s s' : St} {b : Bool} (h : StepRel s b s') (hi : Ma
   cases h with
   | same => exact ⟨hr, hi⟩
   | blocked => exact ⟨hr, hi⟩
-  | launch n st _ =>
+  | launch n st _ _ =>
     refine ⟨hr, ?_⟩
     simp only [ids_add, hr, nextId]
     refine List.nodup_append.mpr ⟨hi, by simp, ?_⟩
@@ -172,11 +168,16 @@ private theorem maxInv_step {s s' : St} {b : Bool} (h : StepRel s b s') (hi : Ma
   | completes fin' _ => exact ⟨hr, hi⟩
   | poll => exact ⟨hr, (poll_kept_sublist (·.id) pollDone_id _ _).nodup hi⟩
   | waitAll fin' _ _ => exact ⟨hr, List.nodup_nil⟩
-  | waitSpec i j fin' hj _ _ =>
+  | waitSpec i j fin' lw hj _ _ =>
     refine ⟨hr, ?_⟩
     have := map_set_cleared (·.id) (fun _ => rfl) hj
+    have hsub := (sweep_kept_sublist (s.table.set i (cleared j))).map (·.id)
     simp only [ids] at hi ⊢
-    rw [this]; exact hi
+    rw [this] at hsub
+    exact hsub.nodup hi
+  | sweepOnly fin' lw _ =>
+    have hsub : (ids (sweep s.table).1).Sublist (ids s.table) := (sweep_kept_sublist s.table).map _
+    exact ⟨hr, hsub.nodup hi⟩
 
 /-- **distinct job numbers, repaired numbering** (`max live id + 1`): on every history, polls
 included, live jobs carry pairwise distinct numbers. -/
@@ -222,17 +223,22 @@ private theorem cur_step {s s' : St} {b : Bool} (h : StepRel s b s')
   cases h with
   | same => exact hi
   | blocked => exact hi
-  | launch n st _ =>
+  | launch n st _ _ =>
     have := demote_no_current s.table hi
     simp only [anns] at this
     simp [addAsCurrent, anns, this]
   | completes fin' _ => exact hi
   | poll => exact Nat.le_trans (List.Sublist.count_le _ (poll_kept_sublist (·.ann) pollDone_ann _ _)) hi
   | waitAll fin' _ _ => simp [anns]
-  | waitSpec i j fin' hj _ _ =>
+  | waitSpec i j fin' lw hj _ _ =>
     have := map_set_cleared (·.ann) (fun _ => rfl) hj
+    have hsub := (sweep_kept_sublist (s.table.set i (cleared j))).map (·.ann)
     simp only [anns] at hi ⊢
-    rw [this]; exact hi
+    rw [this] at hsub
+    exact Nat.le_trans (List.Sublist.count_le _ hsub) hi
+  | sweepOnly fin' lw _ =>
+    have hsub : (anns (sweep s.table).1).Sublist (anns s.table) := (sweep_kept_sublist s.table).map _
+    exact Nat.le_trans (List.Sublist.count_le _ hsub) hi
 
 /-- **at most one current job** (`%%`, `%+`), on every history and for either numbering -/
 theorem current_mark_unique (r : IdRule) (ops : List Op) :
@@ -241,7 +247,7 @@ theorem current_mark_unique (r : IdRule) (ops : List Op) :
     ops _ (by simp [anns, init])
 
 example : anns (run (init .lenPlus1) [.launch 1 false, .launch 1 false, .finish 2, .poll, .launch 1 false,
-    .waitSpec .prev [1]]).table = [.previous, .current] := by decide
+    .waitSpec .prev [1]]).table = [.current] := by decide
 
 /-- the same for the previous mark (`%-`) is **false**: `add_as_current` demotes the current job
 without clearing the older previous mark (bash keeps exactly one `-`). -/
@@ -316,6 +322,100 @@ example :
       .launch 1 false, .finish 5, .query, .launch 1 false, .launch 1 false, .poll, .launch 1 false]
     let s := run (init .lenPlus1) (ops ++ [.waitAll [8, 1, 7, 3, 6, 4]])
     s.stuck = false ∧ tags s.gone = [2, 5, 1, 3, 4, 6, 7, 8] ∧ s.launched = 8 := by
+  decide
+
+/-! ## `wait %spec` -/
+
+/-- **`wait %N` waits for that job, returns its status and forgets it.**  Whenever `wait <spec>`
+returns for a spec that names job `j`: every task of `j` has completed, the status of `wait` is the
+exit code the job's last awaited task ended with, `j` has moved to the removed jobs, and no job that
+has been waited to its end is left in the table (so `%N` no longer names it and its number is free). -/
+theorem wait_spec_returns_the_jobs_status_and_forgets_it (s : St) (sp : Spec) (sched : List Nat)
+    (i : Nat) (j : Job) (hs : s.stuck = false) (hres : resolveIdx s.table sp = some i)
+    (hj : s.table[i]? = some j) (hret : (step s (.waitSpec sp sched)).stuck = false) :
+    (∀ k ∈ j.tasks, k ∈ (step s (.waitSpec sp sched)).fin) ∧
+    (step s (.waitSpec sp sched)).lastWait = waitStatus j ∧
+    cleared j ∈ (step s (.waitSpec sp sched)).gone ∧
+    (∀ j' ∈ (step s (.waitSpec sp sched)).table, j'.tasks ≠ []) := by
+  cases hw : jobWait j s.fin (validSched s sched) with
+  | none => simp [step, hs, hres, hj, hw] at hret
+  | some r =>
+    obtain ⟨e, taken, a1, a2, a3⟩ := jobWait_some (j' := r.1) (fin' := r.2.1) (sched' := r.2.2) hw
+    have hi : i < s.table.length := by
+      rcases Nat.lt_or_ge i s.table.length with h | h
+      · exact h
+      · simp [List.getElem?_eq_none h] at hj
+    simp only [step, hs, Bool.false_eq_true, if_false, hres, hj, hw, e]
+    refine ⟨fun k hk => List.mem_append_right _ (a3 k hk), trivial, ?_, fun j' h' => (mem_sweep_kept h').2⟩
+    apply List.mem_append_right
+    simp only [sweep, List.mem_filter]
+    exact ⟨List.mem_set hi _, rfl⟩
+
+/-- **an unknown job spec**: `wait` does not block, reports status 127, and touches no live job -/
+theorem wait_unknown_spec_reports_127 (s : St) (sp : Spec) (sched : List Nat) (hs : s.stuck = false)
+    (hres : resolveIdx s.table sp = none) :
+    (step s (.waitSpec sp sched)).stuck = false ∧ (step s (.waitSpec sp sched)).lastWait = 127 ∧
+    (step s (.waitSpec sp sched)).table = (sweep s.table).1 := by
+  simp [step, hs, hres]
+
+/-- job 1 ends with status 3: `wait %1` returns 3 and removes it, a second `wait %1` finds no such
+job (127), and the next background job is number 1 again only when the table is empty — here job 2
+is still live, so it becomes number 3 -/
+example :
+    let s1 := run (init .maxPlus1) [.launch 1 false 3, .launch 1 false 0, .waitSpec (.num 1) [1]]
+    let s2 := step s1 (.waitSpec (.num 1) [])
+    let s3 := step s2 (.launch 1 false 0)
+    s1.lastWait = 3 ∧ ids s1.table = [2] ∧ s1.gone.map (·.tag) = [1] ∧ s2.lastWait = 127 ∧ ids s3.table = [2, 3] := by
+  decide
+
+private def LiveInv (s : St) : Prop :=
+  ∀ j ∈ s.table, j.state ≠ .done ∧ (j.tasks = [] → j.orig = [])
+
+private theorem live_step {s s' : St} {b : Bool} (h : StepRel s b s') (hi : LiveInv s) : LiveInv s' := by
+  cases h with
+  | same => exact hi
+  | blocked => exact hi
+  | launch n st code hst =>
+    intro j hj
+    simp only [addAsCurrent] at hj
+    rcases List.mem_append.mp hj with hj | hj
+    · obtain ⟨j0, hj0, e1, e2, e3, _⟩ := mem_demote hj
+      rw [e1, e2, e3]; exact hi j0 hj0
+    · simp only [List.mem_singleton] at hj
+      subst hj
+      exact ⟨hst, fun h => h⟩
+  | completes fin' _ => exact hi
+  | poll =>
+    intro j hj
+    have := mem_poll_kept hj
+    exact ⟨this.1, fun h => absurd h this.2⟩
+  | waitAll fin' _ _ => intro j hj; cases hj
+  | waitSpec i j0 fin' lw hj0 _ _ =>
+    intro j hj
+    obtain ⟨hm, hne⟩ := mem_sweep_kept hj
+    rcases List.mem_or_eq_of_mem_set hm with h | rfl
+    · exact ⟨(hi j h).1, fun h' => absurd h' hne⟩
+    · exact absurd rfl hne
+  | sweepOnly fin' lw _ =>
+    intro j hj
+    obtain ⟨hm, hne⟩ := mem_sweep_kept hj
+    exact ⟨(hi j hm).1, fun h' => absurd h' hne⟩
+
+/-- **No job that has run to its end stays in the table** — on every history, for either numbering,
+after every operation: each listed job is not `Done` and still holds a task of its own (unless it
+was created without any).  In particular a job that `wait %N` has waited for is never listed,
+addressable or counted again; finished jobs leave through the poll, `wait %spec` or `wait`. -/
+theorem no_finished_job_stays_in_the_table (r : IdRule) (ops : List Op) :
+    ∀ j ∈ (run (init r) ops).table, j.state ≠ .done ∧ (j.orig ≠ [] → j.tasks ≠ []) := by
+  have h : LiveInv (run (init r) ops) :=
+    run_invariant LiveInv (fun s op hi => live_step (step_rel s op) hi) ops _ (by intro j hj; cases hj)
+  intro j hj
+  exact ⟨(h j hj).1, fun ho ht => ho ((h j hj).2 ht)⟩
+
+example :
+    let s := run (init .maxPlus1) [.launch 1 false 0, .launch 1 false 7, .launch 1 false 0, .finish 2,
+      .waitSpec .prev [1], .poll]
+    s.table.map (fun j => (j.id, j.state, j.tasks)) = [(3, .running, [3])] ∧ s.gone.map (·.tag) = [1, 2] := by
   decide
 
 /-! ## the execution context does not matter -/
